@@ -961,7 +961,111 @@ func sameValue(a, b ssa.Value) bool {
 		return false
 	}
 	ka, kb := valueKey(a, 0), valueKey(b, 0)
-	return ka != "" && ka == kb
+	if ka != "" && ka == kb {
+		return true
+	}
+	// two readings of one strings.Builder / bytes.Buffer with nothing written to it in between
+	if ca, ok := a.(*ssa.Call); ok {
+		if cb, ok := b.(*ssa.Call); ok {
+			return sameBuilderString(ca, cb) || sameBuilderString(cb, ca)
+		}
+	}
+	return false
+}
+
+// sameBuilderString: a and b are x.String() of the same strings.Builder (bytes.Buffer), a
+// dominates b, and on no way from a to b (that does not come back through a's block) a method
+// of x other than String/Len/Cap is called.
+func sameBuilderString(a, b *ssa.Call) bool {
+	isStr := func(c *ssa.Call) (ssa.Value, bool) {
+		f := c.Call.StaticCallee()
+		if f == nil || f.Name() != "String" || len(c.Call.Args) != 1 {
+			return nil, false
+		}
+		q := qualName(f)
+		if q != "strings.(Builder).String" && q != "bytes.(Buffer).String" {
+			return nil, false
+		}
+		return c.Call.Args[0], true
+	}
+	ra, oka := isStr(a)
+	rb, okb := isStr(b)
+	if !oka || !okb || a.Parent() != b.Parent() || !(ra == rb || (keyP(ra) == keyP(rb) && keyP(ra) != "?")) || !dominates(a, b) {
+		return false
+	}
+	writes := func(in ssa.Instruction) bool {
+		ci := callInfo(in, nil, 0)
+		if ci == nil || ci.Static == nil || ci.Static.Signature.Recv() == nil || len(ci.Common.Args) == 0 {
+			return false
+		}
+		q := qualName(ci.Static)
+		if !strings.HasPrefix(q, "strings.(Builder).") && !strings.HasPrefix(q, "bytes.(Buffer).") {
+			return false
+		}
+		if r := ci.Common.Args[0]; !(r == ra || keyP(r) == keyP(ra)) {
+			return false
+		}
+		switch ci.Static.Name() {
+		case "String", "Len", "Cap", "Bytes":
+			return false
+		}
+		return true
+	}
+	// the region: after a in its block, then blocks reachable without re-entering a's block, up to b
+	ab := a.Block()
+	ia := instrIndex(a)
+	if b.Block() == ab {
+		for i := ia + 1; i < instrIndex(b); i++ {
+			if writes(ab.Instrs[i]) {
+				return false
+			}
+		}
+		return true
+	}
+	for i := ia + 1; i < len(ab.Instrs); i++ {
+		if writes(ab.Instrs[i]) {
+			return false
+		}
+	}
+	// blocks from which b's block is reachable without passing through a's block
+	canReach := map[*ssa.BasicBlock]bool{b.Block(): true}
+	back := []*ssa.BasicBlock{b.Block()}
+	for len(back) > 0 {
+		x := back[len(back)-1]
+		back = back[:len(back)-1]
+		for _, p := range x.Preds {
+			if p != ab && !canReach[p] {
+				canReach[p] = true
+				back = append(back, p)
+			}
+		}
+	}
+	seen := map[*ssa.BasicBlock]bool{ab: true}
+	stack := append([]*ssa.BasicBlock{}, ab.Succs...)
+	for len(stack) > 0 {
+		x := stack[len(stack)-1]
+		stack = stack[:len(stack)-1]
+		if seen[x] {
+			continue
+		}
+		seen[x] = true
+		if !canReach[x] {
+			continue
+		}
+		lim := len(x.Instrs)
+		if x == b.Block() {
+			lim = instrIndex(b)
+		}
+		for i := 0; i < lim; i++ {
+			if writes(x.Instrs[i]) {
+				return false
+			}
+		}
+		if x != b.Block() {
+			stack = append(stack, x.Succs...)
+		}
+	}
+	return true
 }
 
 // valueKey: canonical textual key of a side-effect-free expression over
